@@ -164,7 +164,7 @@ func runPeer(rec *Rec, sc *PeerScenario, n int) {
 	sh, ch := newConnHooks(rec, "srv"), newConnHooks(rec, "cli")
 	srv := erpc.NewPeer(erpc.PeerConfig{}, sh)
 	srv.RouteCall(new(T))
-	cli := erpc.NewPeer(erpc.PeerConfig{DialTimeout: 300 * time.Millisecond}, ch)
+	cli := erpc.NewPeer(erpc.PeerConfig{DialTimeout: 2 * time.Second}, ch)
 	// both accept loops of the server: in-memory listener and loopback TCP
 	mlis := NewMemListener(fmt.Sprintf("PL%d", n))
 	// (started one after the other: the peer registers a listener without synchronisation, and starting
@@ -177,7 +177,7 @@ func runPeer(rec *Rec, sc *PeerScenario, n int) {
 	}
 	go erpc.VerifServeListener(srv, mlis)
 	waitListening()
-	tlis, err := net.Listen("tcp", "127.0.0.1:0")
+	tlis, err := LoopListen()
 	if err != nil {
 		rec.Emit("SetupFailed", "why", err.Error())
 		return
@@ -267,7 +267,7 @@ func runPeer(rec *Rec, sc *PeerScenario, n int) {
 			}
 			// wait for what the two verdicts lead to (bounded; whatever is observed afterwards is recorded)
 			if st.Sv == "ok" && st.Cv == "ok" {
-				WaitUntil(time.Second, func() bool {
+				WaitUntil(5*time.Second, func() bool {
 					if sl.ss == nil && sl.cname != "" {
 						if s, ok := srv.GetSession(sl.cname); ok {
 							sl.ss = s
@@ -276,7 +276,7 @@ func runPeer(rec *Rec, sc *PeerScenario, n int) {
 					return sl.ss != nil && sl.ss.Health() && sl.cs != nil && sl.cs.Health()
 				})
 			} else {
-				WaitUntil(time.Second, func() bool {
+				WaitUntil(3*time.Second, func() bool {
 					se, _ := sh.counts(st.Slot)
 					return ended(sl) && (se > 0 || st.Path == "dial" && st.Cv == "reject") && srv.CountSession()+cli.CountSession() == countUp(slots)
 				})
